@@ -1673,15 +1673,15 @@ PROPS = {
             "explanation": "46 theorems: each compact operator equals its 6x6 matrix definition, composition laws, power invariance, quaternion laws; correspondence: the C++ operator vs the Lean definition on explicit arguments",
             "assumptions": COMMON_ASSUMPTIONS},
     "C08": {"gen": gen_C08, "extra_props": ["C08Phys", "C08PhysKkt", "C08Forces"],
-            "rule": "random models with contact sets (1-3 orthonormal normals per point, 1-2 points, movable / fixed bodies) and loop constraints placed on the manifold with exact kinematics (classes: predecessor = base; ball (3 translations); rotational axes with the predecessor frame away from the base origin; partial translations / frames separated along free axes), velocities projected exactly on G qdot = 0, Baumgarte on / off, external forces; methods direct / range-space / null-space x 3 solvers, Kokkevis for contact-only sets",
+            "rule": "random models with contact sets (1-3 orthonormal normals per point, 1-2 points, movable / fixed bodies) and loop constraints placed on the manifold with exact kinematics (classes: predecessor = base; ball (3 translations); rotational axes with the predecessor frame away from the base origin; partial translations / frames separated along free axes), velocities projected exactly on G qdot = 0, Baumgarte on / off (loop groups; contact groups through enableBaumgarteStabilization), external forces; contact points on 2-3 bodies of trees with a forced user-defined joint; methods direct / range-space / null-space x 3 solvers, Kokkevis for contact-only sets",
             "explanation": "certificates evaluated with the specification: H q'' + N = tau + G^T lambda, G q'' = gamma (second jet of phi incl. the Baumgarte term), agreement of the methods",
             "assumptions": COMMON_ASSUMPTIONS + ["constraint Jacobian smallest singular value >= 0.05 (checked exactly before a case is emitted)"]},
     "C09": {"gen": gen_C09, "extra_props": ["C09F"],
-            "rule": "same constraint-set grammar as C08; CalcConstraintsJacobian / PositionError / VelocityError, gamma from CalcConstrainedSystemVariables (flag set and cleared)",
+            "rule": "same constraint-set grammar as C08; CalcConstraintsJacobian / PositionError / VelocityError, gamma from CalcConstrainedSystemVariables (flag set and cleared); position error off the manifold; contact-only sets also at a velocity that violates the constraints (non-zero velocity error, Baumgarte velocity term)",
             "explanation": "monitor: G = d(phi')/d(qdot), velocity error = phi', gamma = -phi''(qddot = 0) - Baumgarte, from second-order jets of the constraint functions phi on the pose specification",
             "assumptions": COMMON_ASSUMPTIONS},
     "C10": {"gen": gen_C10, "extra_props": ["C08Phys", "C08PhysKkt"],
-            "rule": "constraint sets of the finding-free classes (contacts, loops with predecessor = base, ball loops); per case: a feasible pre-impact velocity with v+ = 0, an arbitrary velocity with v+ = 0, prescribed v+; three methods x random solver",
+            "rule": "constraint sets of the finding-free classes (contacts, loops with predecessor = base, ball loops); per case: a feasible pre-impact velocity with v+ = 0, an arbitrary velocity with v+ = 0, prescribed v+, the system at rest, a velocity with a single non-zero entry; three methods x random solver",
             "explanation": "certificates with the specification: G qdot+ = v+, H (qdot+ - qdot-) + G^T Lambda = 0, agreement of the methods, kinetic energy not increased for v+ = 0, feasible velocity returned unchanged",
             "assumptions": COMMON_ASSUMPTIONS},
     "C11": {"gen": gen_C11, "extra_props": ["C08Phys", "C08PhysKkt"],
